@@ -43,6 +43,7 @@ NEEDED.update({
  "C07-A5": "the prediction metric registered once more with an explicitly requested default of 0",
  "C07-B5": "test collections keyed by the same two fields as the outputs, in the other order",
  "C08-A5": "item vocabularies that are not in identifier order (the largest identifiers registered first, the others arriving with the records)",
+ "C10-B5": "the same ALS scorer trained again (another seed) and asked to fold the same history in: the embedding must solve the system over the embeddings it has now",
  "C11-A5": "one `TrainingOptions` object carrying an integer seed handed to two trainings, and asked for its generator twice",
  "C18-A5": "the `implicit` bridge (ALS, BPR) among the components, and datasets of one shape (other users and items, the same numbers of both)",
  "C18-B5": "the first call's options object handed to `Pipeline.train` again",
